@@ -77,6 +77,24 @@ def py_helper(name, ps, ins):
         return [[x if x > 0 else 0 for x in a]], full
     if name == 'KeepNegatives':
         return [[x if x < 0 else 0 for x in a]], full
+
+    def tdiv(x, y):      # Go integer division truncates toward zero
+        q = abs(x) // abs(y)
+        return q if (x >= 0) == (y >= 0) else -q
+    if name == 'DivideI':
+        return [[tdiv(x, y) for x, y in zip(a, b)]], [len(a), len(b)]
+    if name == 'DivideByI':
+        return [[tdiv(x, p(0)) for x in a]], full
+    if name in ('ChangeRatioI', 'ChangePercentI'):
+        k = p(0)
+        r = [tdiv(a[i + k] - a[i], a[i]) for i in range(max(0, len(a) - k))]
+        return [[v * 100 for v in r] if name == 'ChangePercentI' else r], full
+    if name == 'OperateShared':
+        return [[x * 3 + x for x in a]], full
+    if name == 'Operate3Shared':
+        return [[x * 5 + x * 3 + z for x, z in zip(a, b)]], [len(a), len(b)]
+    if name == 'Operate3SharedLast':
+        return [[x * 5 + y * 3 + y for x, y in zip(a, b)]], [len(a), len(b)]
     raise KeyError(name)
 
 
@@ -144,6 +162,23 @@ def gen_c16(rng, tier):
         for t in range(-3, 8):
             for inc in (1, 2, 3):
                 cases.append(('Seq', [f, t, inc], []))
+    # dividing helpers on an integer element type (non-zero divisors: integer division by zero panics in Go)
+    def nz(n):
+        return [v if v != 0 else 7 for v in (rng.choice([1, -1]) * rng.randrange(1, 400) for _ in range(n))]
+    for n in range(L + 1):
+        for m in range(L + 1):
+            cases.append(('DivideI', [], [[rng.randrange(-5000, 5000) for _ in range(n)], nz(m)]))
+        for k in (1, 2, 3, 7, -4):
+            cases.append(('DivideByI', [k], [[rng.randrange(-5000, 5000) for _ in range(n)]]))
+        for k in range(0, 4):
+            cases.append(('ChangeRatioI', [k], [nz(n)]))
+            cases.append(('ChangePercentI', [k], [nz(n)]))
+    # inputs that share one Duplicate upstream
+    for n in lens3:
+        cases.append(('OperateShared', [], [gen_vals(rng, n)]))
+        for m in lens3:
+            cases.append(('Operate3Shared', [], [gen_vals(rng, n), gen_vals(rng, m)]))
+            cases.append(('Operate3SharedLast', [], [gen_vals(rng, n), gen_vals(rng, m)]))
     # random larger cases
     nrand = 300 if tier == 'quick' else 10000
     allnames = ONE_IN + PARAM_IN + PARAM1_IN + TWO_IN + ['Operate3', 'Echo']
